@@ -31,6 +31,18 @@ proof fn lemma_clear_bit(w: u64, k: u64, j: u64)
 {
     assert(k < 64 && j < 64 ==> ((((w & !(1u64 << k)) >> j) & 1 == 1) == (j != k && ((w >> j) & 1 == 1)))) by (bit_vector);
 }
+proof fn lemma_full_bit(j: u64)
+    requires j < 64
+    ensures bit(u64::MAX, j as int)
+{
+    assert(j < 64 ==> ((0xffff_ffff_ffff_ffffu64 >> j) & 1 == 1)) by (bit_vector);
+}
+proof fn lemma_not_bit(w: u64, j: u64)
+    requires j < 64
+    ensures bit(!w, j as int) == !bit(w, j as int)
+{
+    assert(j < 64 ==> ((((!w) >> j) & 1 == 1) == !((w >> j) & 1 == 1))) by (bit_vector);
+}
 proof fn lemma_zero_bit(j: u64)
     requires j < 64
     ensures !bit(0u64, j as int)
@@ -56,6 +68,16 @@ impl BitVector {
     @@BitVector::set@@
 
     @@BitVector::push@@
+
+    @@BitVector::filled@@
+
+    @@BitVector::zeros@@
+
+    @@BitVector::ones@@
+
+    @@BitVector::not@@
+
+    @@BitVector::to_bools@@
 }
 
 // C15 over the contracts alone: a vector built by pushes reads back what was pushed, wherever it started from.
@@ -159,5 +181,40 @@ proof {
     assert(bv_elem(self.data@, n) == value);
     assert(bv_view(self.data@, (self.len + 1) as usize) =~= bv_view(data0, self.len).push(value));
 }''')
-    u.not_covered += ['BitVector::{filled, zeros, ones, not, and, or, xor (vec!/iterator adapters)}, count_ones, to_bools/iter (adapters), to_bytes/from_bytes (Kani bounded)']
+
+    f = u.method(SRC, 'BitVector', 'filled').D1().ret('r')
+    f.requires('len', 'len + 63 <= usize::MAX')
+    f.ensures('wf', 'r.wf() && r.len == len')
+    f.ensures('view', 'r.view() == Seq::new(len as nat, |i: int| value)')
+    f.before_tail('''proof {
+    assert forall|j: int| 0 <= j < len implies bv_elem(data@, j) == value by {
+        if value { lemma_full_bit((j % 64) as u64); } else { lemma_zero_bit((j % 64) as u64); }
+    }
+    assert(bv_view(data@, len) =~= Seq::new(len as nat, |i: int| value));
+}''')
+    f = u.method(SRC, 'BitVector', 'zeros').D1().ret('r')
+    f.requires('len', 'len + 63 <= usize::MAX')
+    f.ensures('view', 'r.wf() && r.len == len && r.view() == Seq::new(len as nat, |i: int| false)')
+    f = u.method(SRC, 'BitVector', 'ones').D1().ret('r')
+    f.requires('len', 'len + 63 <= usize::MAX')
+    f.ensures('view', 'r.wf() && r.len == len && r.view() == Seq::new(len as nat, |i: int| true)')
+
+    f = u.method(SRC, 'BitVector', 'not').D1().R17('data').ret('r')
+    f.requires('wf', 'self.wf()')
+    f.ensures('wf', 'r.wf() && r.len == self.len')
+    f.ensures('view', 'r.view() == Seq::new(self.len as nat, |i: int| !self.view()[i])')
+    L = f.loop(0).kind('for')
+    L.invariants(('len', 'data@.len() == i__'), ('flipped', 'forall|k: int| 0 <= k < i__ ==> #[trigger] data@[k] == !self.data@[k]'))
+    L.after('''proof {
+    assert forall|j: int| 0 <= j < self.len implies bv_elem(data@, j) == !bv_elem(self.data@, j) by { lemma_not_bit(self.data@[j / 64], (j % 64) as u64); }
+    assert(bv_view(data@, self.len) =~= Seq::new(self.len as nat, |i: int| !self.view()[i]));
+}''')
+
+    f = u.method(SRC, 'BitVector', 'to_bools').D1().R18('bool').ret('r')
+    f.requires('wf', 'self.wf()')
+    f.ensures('view', 'r@ == self.view()')
+    L = f.loop(0).kind('for')
+    L.invariants(('wf', 'self.wf()'), ('prefix', 'out__@.len() == i && forall|k: int| 0 <= k < i ==> #[trigger] out__@[k] == self.view()[k]'))
+    L.after('proof { assert(out__@ =~= self.view()); }')
+    u.not_covered += ['BitVector::{and, or, xor (zip/take adapter chains), count_ones, iter, ones_iter, zeros_iter}, to_bytes/from_bytes (Kani bounded)']
     return u
